@@ -134,6 +134,12 @@ def body(ch, ctx):
                 ok = f.bin == got and f.calc_bin() == got and type(f.bin) is type(got)
                 ctx.check(ok, "feature-bin-differs-from-bins", dict(fmt=fmt), start=start, end=end,
                           feature_bin=repr(f.bin)[:100], bins=repr(got)[:100])
+                # the bin that goes into the database follows the coordinates the feature has when it is stored
+                g = Feature(seqid="c", start=1, end=1)
+                g.start, g.end = start, end
+                stored = g.astuple()[-1]
+                ctx.check(stored == got and g.calc_bin() == got, "stored-bin-stale-after-coordinate-change", dict(fmt=fmt),
+                          start=start, end=end, stored=repr(stored)[:100], bins=repr(got)[:100])
         else:
             check_set(ctx, start, end, fmt)
     else:
